@@ -214,6 +214,8 @@ class Kernel:
         self.ended = False
         self.state_probes = []           # callables returning small tuples describing primitive state
         self.abstract_states = set()
+        self._fallback = False
+        self._rng = choice.sched_rng()
         self._idle_set = set()           # tasks whose timeout fired since the last step of any other task
         self._idle_fires = 0
         self.task_errors = []            # (task name, repr(exc), traceback text)
@@ -321,8 +323,15 @@ class Kernel:
         for e in self.internal:
             if e.enabled():
                 opts.append(e)
-        # a deferred task ("as late as possible") runs only when nothing else can
-        return opts if opts else (deferred if deferred else timed)
+        # a deferred task ("as late as possible") runs only when nothing else can; whether such a task or the
+        # timeout of a timed wait comes first is open: both are candidates then, chosen uniformly (not by the
+        # strategy, which could keep choosing a polling task for ever)
+        self._fallback = False
+        if opts:
+            return opts
+        if deferred and timed:
+            self._fallback = True
+        return deferred + timed
 
     def _pick(self, me, label="", anchored=False):
         while True:
@@ -336,8 +345,11 @@ class Kernel:
                 c = opts[0]
             else:
                 me_first = opts[0] is me
-                idx = self.choice.decide(
-                    len(opts), lambda: self.strategy.pick(opts, me_first, self, label, anchored))
+                if self._fallback:
+                    idx = self.choice.decide(len(opts), lambda: self._rng.randrange(len(opts)))
+                else:
+                    idx = self.choice.decide(
+                        len(opts), lambda: self.strategy.pick(opts, me_first, self, label, anchored))
                 c = opts[idx]
                 if me_first and idx != 0:
                     self.preemptions += 1
